@@ -7,5 +7,7 @@ CONSTANTS
   RegisterFirst = TRUE
   OldDelDeletedEarly = FALSE
   GcProtectsBuilding = FALSE
+  MaxFaults = 1
+  StoreMetaFirst = FALSE
 INVARIANT NeverDeletesBuilding
 CHECK_DEADLOCK FALSE
